@@ -88,10 +88,28 @@ def stage_decode(ctx):
     pats = PATTERNS + [bytes(ctx.rng.randrange(256) for _ in range(ctx.rng.randrange(1, 9))) for _ in range(6 if not ctx.deep else 60)]
     calls = [('discover', dict(host='192.0.2.7', port=8899, timeout=1, retries=0))] + \
             [('connect', dict(host='192.0.2.7', port=p, family=f, timeout=1, retries=0)) for f in ('ET', 'ES', 'DT') for p in (8899, 502)]
-    for pat in pats:
-        def payload(reg, count, pat=pat):
+    # well-formed identification payloads with ONE text field at a time replaced: shorter content padded with blanks / NULs, digits of every length,
+    # letters, blanks only (firmware / model / serial fields of the three families; offsets as read_device_info slices them)
+    FIELDS = [(0, 5), (5, 15), (31, 47), (51, 63), (6, 22), (22, 32), (0, 16)]
+    texts = [b'', b' ', b'1', b'12', b'123', b'1234', b'12345', b'123456', b'1234 ', b'12 ', b'AB', b'2314E', b'GW5048D-ES', b'\x00', b'12\x00\x00', b'9010KETU123W0001']
+    structured = []
+    for lo, hi in FIELDS:
+        for t in texts:
+            for pad in (b' ', b'\x00'):
+                structured.append((lo, hi, (t + pad * (hi - lo))[: hi - lo]))
+    if not ctx.deep: structured = [structured[i] for i in sorted(ctx.rng.sample(range(len(structured)), 40))] + [(0, 5, b'1234 '), (0, 5, b'12   '), (0, 5, b'     ')]
+    pats = [(p, None) for p in pats] + [(b'GW5048D-ES 2314E', f) for f in structured]
+    for pat, field in pats:
+        def payload(reg, count, pat=pat, field=field):
             n = 2 * count
-            return (pat * (n // len(pat) + 1))[:n]
+            out = bytearray((pat * (n // len(pat) + 1))[:n])
+            if field is not None:
+                base = bytearray(b'2314EGW5048D-ES' + b' ' * 16 + b'95048ESU123W0001' + b'    ' + b'02041-14-S00' + b' ' * 40)[:n].ljust(n, b' ')
+                out = base
+                lo, hi, val = field
+                if hi <= n: out[lo:hi] = val
+            return bytes(out)
+        pat = pat if field is None else b'field %d..%d = ' % (field[0], field[1]) + field[2]
         for name, kw in calls:
             goodwe = _reload()
             script = PEER.Script('', default='N', timeout=1, payload_fn=payload)
